@@ -23,13 +23,17 @@
       then registry.get(match) (None when nothing matches: [NoImpl] below);
       [singledispatchmethod.__get__] (943-951):
         method = self.dispatcher.dispatch(args[0].__class__); return method.__get__(obj, cls)(value)
-      For a plain function [__get__] binds the CALLING instance; for a bound method [__get__]
-      returns the method itself, so a re-registered handler runs with the instance that registered it.
+      For a plain function [__get__] binds the CALLING instance.  For a bound method the answer depends on
+      the interpreter: before CPython 3.11 the method type had its own __get__ returning the method unchanged
+      (the handler then runs with the instance that REGISTERED it); on CPython 3.11+ (3.12.1 here) method objects
+      have no __get__ of their own, the attribute lookup [method.__get__] is forwarded to the underlying function
+      and binds the CALLING instance again.  Both behaviours are modelled: parameter [rebinds], measured by the
+      harness on every run (Gen/DispatchGen.v [method_get_rebinds]) and exercised by the correspondence run.
 
     What [_unconvert_datetime] computes from (self, value) is a parameter [fmt] of the semantics
     (the date-time formatting itself is the subject of C09/C11); the hypothesis the theorems need -
-    its result does not depend on [self] (the code reads self.__type__ only to build an error
-    message) - is explicit in every statement and is measured by the correspondence run.
+    [rebinds = true] or its result does not depend on [self] (the code reads self.__type__ only to build
+    an error message) - is explicit in every statement and is measured by the correspondence run.
     The [convert] dispatcher is never registered on after import and is not modelled.
     Definitions only. *)
 From OfxV Require Import Base.Prelude.
@@ -115,11 +119,11 @@ Definition dispatch (st : state) (t : ty) : handler * state :=
   end.
 
 (** [method.__get__(obj, cls)(value)]: plain functions run with the calling instance as self, a bound
-    method with its own; [fmt self value] is what _unconvert_datetime computes *)
-Definition sem (fmt : inst -> pyval -> result text) (h : handler) (caller : inst) (v : pyval) : result outv :=
+    method with its own unless the interpreter rebinds it; [fmt self value] is what _unconvert_datetime computes *)
+Definition sem (rebinds : bool) (fmt : inst -> pyval -> result text) (h : handler) (caller : inst) (v : pyval) : result outv :=
   match h with
   | Default => Err Reject                                     (* TypeError *)
-  | UnconvDatetime b => rmap OText (fmt (match b with Some i => i | None => caller end) v)
+  | UnconvDatetime b => rmap OText (fmt (match b with Some i => if rebinds then caller else i | None => caller end) v)
   | UnconvNone => if is_none v && ireq caller then Err Reject (* OFXSpecError *) else OK (OVal v)
   | NoImpl => Err Crash                                       (* None has no usable __get__ result to call *)
   end.
@@ -133,23 +137,23 @@ Inductive op :=
 | TimeOp.
 
 (** [rereg]: does normalize_to_gmt contain the register line (regenerated from the source: Gen/DispatchGen.v) *)
-Definition run_op (rereg : bool) (fmt : inst -> pyval -> result text) (st : state) (o : op)
+Definition run_op (rereg rebinds : bool) (fmt : inst -> pyval -> result text) (st : state) (o : op)
   : state * option (result outv) :=
   match o with
   | ConvertStr i reaches =>
       if rereg && reaches then (register st TDatetime (UnconvDatetime (Some i)), None) else (st, None)
-  | Unconvert c v => let (h, st') := dispatch st (vty v) in (st', Some (sem fmt h c v))
+  | Unconvert c v => let (h, st') := dispatch st (vty v) in (st', Some (sem rebinds fmt h c v))
   | TimeOp => (st, None)
   end.
 
 (** a history run sequentially: final state and the outcomes of its unconvert calls, in order *)
-Fixpoint run_ops (rereg : bool) (fmt : inst -> pyval -> result text) (st : state) (ops : list op)
+Fixpoint run_ops (rereg rebinds : bool) (fmt : inst -> pyval -> result text) (st : state) (ops : list op)
   : state * list (result outv) :=
   match ops with
   | [] => (st, [])
   | o :: r =>
-      let (st1, out) := run_op rereg fmt st o in
-      let (st2, outs) := run_ops rereg fmt st1 r in
+      let (st1, out) := run_op rereg rebinds fmt st o in
+      let (st2, outs) := run_ops rereg rebinds fmt st1 r in
       (st2, match out with Some x => x :: outs | None => outs end)
   end.
 
@@ -181,7 +185,7 @@ Record thread := Th { pc : tpc; todo : list op; done : list completed }.
 Definition new_thread (prog : list op) : thread := Th PIdle prog [].
 
 (** one atomic step of one thread *)
-Definition step (rereg : bool) (fmt : inst -> pyval -> result text) (st : state) (th : thread) : state * thread :=
+Definition step (rereg rebinds : bool) (fmt : inst -> pyval -> result text) (st : state) (th : thread) : state * thread :=
   match pc th with
   | PIdle =>
       match todo th with
@@ -199,7 +203,7 @@ Definition step (rereg : bool) (fmt : inst -> pyval -> result text) (st : state)
   | PRegClear => (cache_clear st, Th PIdle (todo th) (done th))
   | PMiss c v => (st, Th (PFound c v (search (registry st) (vty v))) (todo th) (done th))
   | PFound c v h => (cache_store st (vty v) h, Th (PHave c v h) (todo th) (done th))
-  | PHave c v h => (st, Th PIdle (todo th) (done th ++ [Done c v h (sem fmt h c v)])%list)
+  | PHave c v h => (st, Th PIdle (todo th) (done th ++ [Done c v h (sem rebinds fmt h c v)])%list)
   end.
 
 Fixpoint replace_nth {A} (k : nat) (x : A) (l : list A) : list A :=
@@ -210,15 +214,15 @@ Fixpoint replace_nth {A} (k : nat) (x : A) (l : list A) : list A :=
   end.
 
 (** the scheduler picks thread [k] (an index that names no thread is a lost turn) *)
-Definition sched_step (rereg : bool) (fmt : inst -> pyval -> result text)
+Definition sched_step (rereg rebinds : bool) (fmt : inst -> pyval -> result text)
            (cfg : state * list thread) (k : nat) : state * list thread :=
   match nth_error (snd cfg) k with
   | None => cfg
-  | Some th => let (st', th') := step rereg fmt (fst cfg) th in (st', replace_nth k th' (snd cfg))
+  | Some th => let (st', th') := step rereg rebinds fmt (fst cfg) th in (st', replace_nth k th' (snd cfg))
   end.
-Definition run_schedule (rereg : bool) (fmt : inst -> pyval -> result text)
+Definition run_schedule (rereg rebinds : bool) (fmt : inst -> pyval -> result text)
            (cfg : state * list thread) (sched : list nat) : state * list thread :=
-  fold_left (sched_step rereg fmt) sched cfg.
+  fold_left (sched_step rereg rebinds fmt) sched cfg.
 
 Definition finished (th : thread) : bool :=
   match pc th, todo th with PIdle, [] => true | _, _ => false end.
